@@ -110,10 +110,16 @@ def world_files(world):
         return {
             "m_cfg.yaml": "seed: 4\nmodel:\n  init_args:\n    ckpt: c.pt\n",
         }
+    if world == "lcs":
+        return {
+            "k_map.yaml": f"model:\n  class_path: {LIB}.TakesDict\nopts:\n  a: 6\n",
+            "k_data.yaml": f"model:\n  class_path: {LIB}.TakesData\nsrc:\n  size: 6\n",
+            "k_bad.yaml": f"model:\n  class_path: {LIB}.TakesDict\nopts:\n  a: six\n",
+        }
     raise KeyError(world)
 
 
-WORLDS = ["sub", "cls", "link", "dcf", "sdf", "dcl", "dmp"]
+WORLDS = ["sub", "cls", "link", "dcf", "sdf", "dcl", "dmp", "lcs"]
 
 
 def build_world(world, J):
@@ -255,6 +261,33 @@ def build_world(world, J):
         Q.add_argument("--seed", type=Optional[int], default=None)
         Q.add_argument("--name", type=str, default="x")
         Q.add_subclass_arguments(lib.Net, "model", default={"class_path": f"{LIB}.Net"})
+        return {"P": P, "Q": Q}
+    if world == "lcs":
+        # links INTO A CLASS-SELECTED TARGET: the target of a parsing link is an init argument of a subclass-typed
+        # argument, and the subclasses declare that init argument with different kinds of type (lib.Tgt: dataclass /
+        # Dict / Optional[dict] / Any / absent for `opts`; int / float / Optional[int] for `k`).  What applying the link
+        # has to do (hand the source namespace over as it is, or as a dict; which type the value is checked against)
+        # depends on the class selected in the config OF THE CALL, so successive calls that select different classes
+        # must each behave like the first call on a fresh parser.  Sources: a dataclass group (a Namespace value, no
+        # compute_fn) and a scalar; a third link has a whole mapping-typed argument as target (the other branch of the
+        # namespace -> dict decision).  Q: the same link on a second parser whose default class is of another kind.
+        import importlib
+
+        lib = importlib.import_module(LIB)
+        P = AP(exit_on_error=False, prog="app", env_prefix="APP")
+        P.add_argument("--cfg", action=CF)
+        P.add_class_arguments(lib.Pt, "opts")
+        P.add_class_arguments(lib.Src, "src")
+        P.add_argument("--model", type=lib.Tgt, default={"class_path": f"{LIB}.TakesData"})
+        P.add_argument("--extra", type=Dict[str, int], default={})
+        P.link_arguments("opts", "model.init_args.opts")
+        P.link_arguments("src.size", "model.init_args.k")
+        P.link_arguments("opts", "extra")
+        Q = AP(prog="tool", env_prefix="TOOL")
+        Q.add_argument("--cfg", action=CF)
+        Q.add_class_arguments(lib.Pt, "opts")
+        Q.add_argument("--model", type=lib.Tgt, default={"class_path": f"{LIB}.TakesDict"})
+        Q.link_arguments("opts", "model.init_args.opts")
         return {"P": P, "Q": Q}
     raise KeyError(world)
 
@@ -660,6 +693,67 @@ def alphabet(world, which):
             pc("P", ["comments", "skip_default", "skip_null"], ["--name=y"]),
             _op("P", "parse_string", "seed: null\nmodel:\n  init_args:\n    ckpt: null\n", "ok:explicit-null"),
             _op("P", "instantiate", cfg_b),
+        ]
+    elif world == "lcs":
+        # "link-into-class" = a parse_* call that gets as far as applying the parsing links while a class is selected
+        # for the link target; WHICH class (the kind of type it gives the linked init argument: dataclass / mapping /
+        # optional mapping / Any / no such argument) and through which entry point it is selected (argv, object, string,
+        # config file, environment, parser default) are the values of this one class of call: shape
+        # `<parser>.parse*[link-into-class]` in signatures, the label says which variant.  Every ordered pair of kinds
+        # is in the quick tier (full alphabet, histories of length 2), every triple of the core kinds.
+        def lk(on, m, a, label, kw=None, env=None):
+            return _op(on, m, a, label, kw, env, shape=f"{on}.parse*[link-into-class]")
+
+        def sel(name, init=None):
+            d = {"class_path": f"{LIB}.{name}"}
+            if init is not None:
+                d["init_args"] = init
+            return d
+
+        cfg_data = {"opts": {"a": 3, "b": 2}, "src": {"size": 2}, "model": sel("TakesData", {}), "extra": {"__dict__": {}}}
+        cfg_map = {"opts": {"a": 3, "b": 2}, "src": {"size": 2}, "model": sel("TakesDict", {}), "extra": {"__dict__": {}}}
+        ins_data = {"opts": {"a": 3, "b": 2}, "src": {"size": 2}, "model": sel("TakesData", {"opts": {"a": 3, "b": 2}, "k": 2}), "extra": {"__dict__": {"a": 3, "b": 2}}}
+        ins_map = {"opts": {"a": 3, "b": 2}, "src": {"size": 2}, "model": sel("TakesDict", {"opts": {"__dict__": {"a": 3, "b": 2}}, "k": 2}), "extra": {"__dict__": {"a": 3, "b": 2}}}
+        core += [
+            lk("P", "parse_args", [], "ok:default-class:dataclass-init-arg"),
+            lk("P", "parse_args", [f"--model={LIB}.TakesDict", "--opts.a=3"], "ok:mapping-init-arg"),
+            lk("P", "parse_args", [f"--model={LIB}.TakesData", "--opts.b=5"], "ok:dataclass-init-arg"),
+            lk("P", "parse_object", {"model": sel("TakesOptMap"), "opts": {"b": 7}}, "ok:optional-mapping-init-arg"),
+            lk("P", "parse_string", f"model: {LIB}.TakesAny\nsrc:\n  size: 5\n", "ok:any-init-arg"),
+            lk("P", "parse_args", ["--print_config", f"--model={LIB}.TakesDict"], "print_config:mapping-init-arg"),
+            _op("P", "parse_args", [f"--model={LIB}.TakesDict", "--cfg=k_bad.yaml"], "error:config-file-after-class"),
+            lk("Q", "parse_args", [f"--model={LIB}.TakesData", "--opts.a=4"], "ok:dataclass-init-arg"),
+        ]
+        more += [
+            lk("P", "parse_args", [f"--model={LIB}.NoOpts"], "ok:no-such-init-arg"),
+            lk("P", "parse_args", [f"--model={LIB}.TakesOptMap", "--src.size=4"], "ok:optional-mapping-init-arg+scalar-source"),
+            lk("P", "parse_args", ["--cfg=k_map.yaml"], "ok:config-file:mapping-init-arg"),
+            lk("P", "parse_args", ["--cfg=k_map.yaml", "--cfg=k_data.yaml"], "ok:two-config-files:mapping-then-dataclass"),
+            lk("P", "parse_env", {"APP_MODEL": f"{LIB}.TakesDict", "APP_OPTS__B": "8"}, "ok:mapping-init-arg"),
+            lk("P", "parse_object", {"model": sel("TakesData"), "src": {"size": 9}}, "ok:dataclass-init-arg"),
+            # fails INSIDE the application of the links (the source is not in the config)
+            _op("P", "parse_string", f"model: {LIB}.TakesDict\n", "error:no-defaults:link-source-missing", {"defaults": False}),
+            lk("P", "parse_args", [f"--model={LIB}.TakesDict", '--model.opts={"a": 9}'], "ok:link-target-given-is-overridden:mapping-init-arg"),
+            _op("P", "parse_args", ["--model.help=TakesDict"], "class-help"),
+            _op("P", "get_defaults"),
+            _op("P", "dump", cfg_map, "ok:mapping-init-arg"),
+            _op("P", "dump", cfg_data, "ok:skip_default:dataclass-init-arg", {"skip_default": True}),
+            _op("P", "instantiate", ins_map, "ok:mapping-init-arg"),
+            _op("P", "instantiate", ins_data, "ok:dataclass-init-arg"),
+            lk("Q", "parse_args", [], "ok:default-class:mapping-init-arg"),
+            lk("Q", "parse_object", {"model": sel("TakesAny")}, "ok:any-init-arg"),
+            lk("Q", "parse_args", ["--print_config", f"--model={LIB}.TakesOptMap"], "print_config:optional-mapping-init-arg"),
+        ]
+        extra += [
+            _op("P", "parse_args", [f"--model={LIB}.TakesAny", "--extra.z=1"], "error:link-target-is-not-an-option"),
+            _op("P", "parse_args", [f"--model={LIB}.Unrelated"], "error:not-a-subclass"),
+            _op("P", "parse_args", ["--help"], "help"),
+            _op("P", "validate", cfg_map, "ok:mapping-init-arg"),
+            _op("Q", "get_defaults"),
+            lk("P", "parse_args", ["--print_config=skip_default", f"--model={LIB}.TakesData"], "print_config:dataclass-init-arg"),
+            _op("P", "validate", cfg_data, "ok:dataclass-init-arg"),
+            lk("Q", "parse_string", f"model: {LIB}.NoOpts\n", "ok:no-such-init-arg"),
+            _op("Q", "instantiate", {"opts": {"a": 1, "b": 2}, "model": sel("TakesDict", {"opts": {"__dict__": {"a": 1, "b": 2}}, "k": 0})}, "ok:mapping-init-arg"),
         ]
     else:
         raise KeyError(world)
